@@ -571,7 +571,56 @@ class C16(WorkerProp):
         # N = 254 (repeat amount 255; the 1 ms delay between copies is real time, so only a few tiny transfers)
         L += ["snd 8 2 5000 255 0 gen:12:1 A2@0", "snd 8 1 5000 255 1 gen:3:1 A0@0 A1@0", "snd 8 1 5000 255 1 gen:3:1 A4@0",
               "rcv 8 2 255 1 full D1:0102030405060708 D2:01", "rcv 8 1 255 1 full D1:0102030405060708 D1:0102030405060708 D2:-"]
+        # through the server: --duplicate-packets N must reach the worker of every kind of request (with and without options,
+        # every window size, both port modes, downloads and uploads)
+        from .p_server import rq
+        root = (self.sandbox + "/k0").encode().hex()
+        for flags in ["1", "2", "s1", "s3", "o2"]:
+            for opts in [(), (("blksize", 8),), (("windowsize", 2),), (("blksize", 8), ("windowsize", 4)), (("windowsize", 3), ("timeout", 2)),
+                         (("tsize", 0),), (("windowsize", 1),)]:
+                L.append("req %s %s srv/f=gen:40:3 %s" % (root, flags, rq("rrq", b"f", opts).hex()))
+                L.append("req %s %s srv/f=gen:40:3 %s" % (root, flags, rq("wrq", b"up", opts).hex()))
         return L
+
+    retry_env = {"HARNESS_SLOW": "1"}
+
+    def oracle(self, line, impl):
+        if line.startswith("req "):
+            return self.req_oracle(line, impl)
+        return WorkerProp.oracle(self, line, impl)
+
+    def nontrivial(self, line, impl):
+        return line.startswith("req ") or WorkerProp.nontrivial(self, line, impl)
+
+    def classify(self, line, impl, res):
+        if line.startswith("req "):
+            res.count("server-level:flags=" + line.split(" ")[2])
+        else:
+            WorkerProp.classify(self, line, impl, res)
+
+    def shrink(self, line):
+        return [] if line.startswith("req ") else WorkerProp.shrink(self, line)
+
+    def req_oracle(self, line, impl):
+        from .p_server import Case, parse_req_obs
+        if impl in ("abort", "panic") or not impl.startswith("r1="):
+            return ("server died or no observation: " + impl[:60], "died")
+        c = Case(line)
+        r1, conv, fs = parse_req_obs(impl)
+        toks = [] if conv in ("-", ".") else conv.split(" ")
+        want = c.dup + 1
+        runs = []
+        for t in toks:
+            if runs and runs[-1][0] == t:
+                runs[-1][1] += 1
+            else:
+                runs.append([t, 1])
+        if not runs:
+            return ("accepted request produced no DATA/ACK at all", "server-no-conversation")
+        for t, n in runs:
+            if t[0] in "DA" and n != want:
+                return ("with --duplicate-packets %d the server's worker sent %s %d time(s), not %d" % (c.dup, t.split(":")[0], n, want), "server-repeat-count")
+        return None
 
 
 def wrap_cases(tier, rng):
@@ -613,6 +662,16 @@ def wrap_cases(tier, rng):
                 if 65530 <= k <= 65540 and rng.random() < 0.4:
                     evs.append(rng.choice(["D%d:%s" % (k % 65536, p), "T", "D%d:00" % ((k + 2) % 65536), "D%d:00" % ((k - 1) % 65536)]))
             L.append("rcv 1 %d 1 1 len %s" % (w, " ".join(evs)))
+    # directed: the block numbered 0 (absolute 65536) is lost or overtaken - the blocks numbered 1, 2 of the same window arrive
+    # first (they are out of sequence and must not be taken for its successors), then the window is sent again
+    for w in ([3, 7] if tier == "quick" else [1, 2, 3, 5, 6, 7, 64]):
+        nb = 65536 + w + 2
+        pay = lambda k: ("%02x" % (k % 251)) if k < nb else "-"
+        evs = ["D%d:%s" % (k % 65536, pay(k)) for k in range(1, 65536)]
+        ahead = ["D%d:%s" % (k % 65536, pay(k)) for k in range(65537, min(65536 + w, nb) + 1)]
+        evs += ahead[: max(1, w - 1)]
+        evs += ["D%d:%s" % (k % 65536, pay(k)) for k in range(65536, nb + 1)]
+        L.append("rcv 1 %d 1 1 len %s" % (w, " ".join(evs)))
     return L
 
 
@@ -892,7 +951,10 @@ class C13(WorkerProp):
                 for nb in ([1, 2, 3] if tier == "quick" else [0, 1, 2, 3, 4, 5, 7]):
                     fs = "%s/old=%s" % (base, "0102")
                     L.append("abort %s %s %s %s %d" % (root, flags, fs, rq("wrq", rng.choice([b"up", b"sub/up", b"old"]), opts).hex(), nb))
-        return L
+                    if "o" in flags:
+                        # --overwrite: the aborted upload replaces a file that existed before (it is truncated at once)
+                        L.append("abort %s %s %s %s %d" % (root, flags, fs, rq("wrq", b"old", opts).hex(), nb))
+        return list(dict.fromkeys(L))
 
     retry_env = {"HARNESS_SLOW": "1"}
 
